@@ -1,4 +1,4 @@
-import ScrutModel.Lemmas.MarkdownWF
+import ScrutModel.Lemmas.MarkdownTail
 /-!
 # C06 — Markdown: every scrut block becomes exactly one test; nothing is dropped
 
@@ -40,9 +40,24 @@ Proved here, for **all** documents (no bound on the number or length of lines, a
   document parseable and changes neither the document configuration nor count, order and content
   of the tests (only line numbers and titles may move).
 
-This is the whole grammar of the harness' generator (`harness/src/markdown.rs`, `Item`) except
-unterminated constructs at the end of the document: those are covered at token level by
-`C06_unterminated_*` and, with expected tests, by the stream `ast-prefixes`.
+* `C06_wellformed_tail` – the same for documents whose **last construct is unterminated**: a
+  sequence of well-formed items followed by a `Tail` – front-matter without the closing `---`
+  (while no content has started), a foreign block, a scrut block without command or a scrut block
+  with a command without closing line.  The parser succeeds and yields the front-matter texts of
+  the items plus that of the tail, and the tests of the items plus – for an unterminated block
+  with a command – the test that is written in the tail (`tailTests`: all lines to the end of the
+  document are its body; line number of its `$` line; the title collected before it).  No
+  construct is dropped or reported as an error because its closing line is missing;
+* `C06_wellformed_tail_as_closed`, `C06_last_closing_line_optional` – put differently: the tail is
+  read exactly as if it had been closed; removing the closing line of the last construct of a
+  well-formed document changes nothing in the result.
+
+This is the whole grammar of the harness' generator (`harness/src/markdown.rs`, `Item`, including
+its unterminated last items: streams `ast-open-tail` and `ast-prefixes`).  What the code does with
+an unterminated construct is the same as with a closed one, in particular an unterminated bare
+fence is still `MissingLanguageSpecifier`, and a `---` that is never closed is front-matter (its
+text must be a document configuration) only while no content has started – afterwards it is a
+prose line and the lines behind it are ordinary items.
 
 Readings of the property that the code did not implement when this check first ran (harness
 classes `C06:state-leak`, `C06:bare-long-fence`, `C06:info-string-whitespace`,
@@ -107,6 +122,56 @@ theorem C06_wellformed_text (env : Env) (text : List Char) (items : List Item)
   unfold parseMarkdown
   rw [h]
   exact parseLines_render env items wf
+
+/-- **Well-formed documents that end in an unterminated construct** (`tail`: front-matter, foreign
+block, scrut block without or with a command, each without its closing line; `Tail.none` gives
+`C06_wellformed` back).  The tokenizer reads the open construct to the end of the document, the
+parser treats it like a closed one:
+
+* the items in front of it yield their front-matter texts and tests as in `C06_wellformed`;
+* unterminated front-matter (only while no content has started) yields its text;
+* an unterminated foreign block or scrut block without command yields nothing (and no error);
+* an unterminated scrut block with a command yields its test: shell expression, expectation
+  lines, exit code, inline configuration as written, line number of its `$` line
+  (`(render items).length` is the index of the tail's first line), and the title that the items
+  have collected and no earlier test has used (`titleAfter`).
+
+Nothing is dropped, nothing is invented, no error is raised because the closing line is missing. -/
+theorem C06_wellformed_tail (env : Env) (items : List Item) (tail : Tail) (wf : ItemsWF env false items)
+    (wft : tail.WF env (csAfterAll false items)) :
+    parseLines env (render items ++ tail.lines)
+      = .ok { docConfigs := docTexts items ++ tail.docTexts
+              tests := expectedTests env items 0 none []
+                ++ tailTests tail (render items).length (titleAfter env items none []).1 } :=
+  parseLines_render_tail env items tail wf wft
+
+/-- the same for the text of the document -/
+theorem C06_wellformed_tail_text (env : Env) (text : List Char) (items : List Item) (tail : Tail)
+    (h : splitLines text = render items ++ tail.lines) (wf : ItemsWF env false items)
+    (wft : tail.WF env (csAfterAll false items)) :
+    parseMarkdown env text
+      = .ok { docConfigs := docTexts items ++ tail.docTexts
+              tests := expectedTests env items 0 none []
+                ++ tailTests tail (render items).length (titleAfter env items none []).1 } := by
+  unfold parseMarkdown
+  rw [h]
+  exact parseLines_render_tail env items tail wf wft
+
+/-- … in the vocabulary of `C06_wellformed` alone: the unterminated construct is read exactly as
+if it were closed (`tail.closed` = the tail as an item). -/
+theorem C06_wellformed_tail_as_closed (env : Env) (items : List Item) (tail : Tail)
+    (wf : ItemsWF env false items) (wft : tail.WF env (csAfterAll false items)) :
+    parseLines env (render items ++ tail.lines)
+      = .ok { docConfigs := docTexts (items ++ tail.closed)
+              tests := expectedTests env (items ++ tail.closed) 0 none [] } :=
+  parseLines_render_tail_closed env items tail wf wft
+
+/-- Removing the closing line of the last construct of a well-formed document (the closing `---`
+of its front-matter, the closing fence of a foreign or scrut block) does not change the result. -/
+theorem C06_last_closing_line_optional (env : Env) (items : List Item) (tail : Tail)
+    (wf : ItemsWF env false (items ++ tail.closed)) :
+    parseLines env (render items ++ tail.lines) = parseLines env (render (items ++ tail.closed)) :=
+  last_closer_optional env items tail wf
 
 /-- count, order and content of the tests are those of the blocks as written -/
 theorem C06_wellformed_cores (env : Env) (items : List Item) :
@@ -208,6 +273,77 @@ example : expectedTests envAll exampleDoc 0 none []
 
 example : parseLines envAll (render exampleDoc)
     = .ok { docConfigs := [['a', ':', ' ', '1']], tests := expectedTests envAll exampleDoc 0 none [] } := by rfl
+
+/-! ### documents that end in an unterminated construct -/
+
+/-- blank line, front-matter, heading, foreign block, paragraph: 11 lines, the title "T\nP" is
+collected and not used -/
+def exampleHead : List Item :=
+  [.prose [], .front [['a', ':', ' ', '1']], .prose ['#', ' ', 'T'], .foreign exampleForeign, .prose ['P']]
+
+example : ItemsWF envAll false exampleHead :=
+  ⟨⟨rfl, by decide⟩, ⟨rfl, by decide, rfl⟩, ⟨rfl, by decide⟩, ⟨rfl, rfl, by decide, by decide, rfl⟩,
+   ⟨rfl, by decide⟩, trivial⟩
+
+/-- the hypotheses of `C06_wellformed_tail` are satisfiable with an unterminated scrut block with
+a command (`exampleBlock` without its closing line: "```scrut {a}", "# c", "$ x", "> y", "o",
+"[7]", "> z", end of the document) … -/
+example : (Tail.openBlock exampleBlock).WF envAll (csAfterAll false exampleHead) :=
+  ⟨rfl, rfl, rfl, by decide, by decide, by decide, by decide, rfl⟩
+
+/-- … the document -/
+example : render exampleHead ++ (Tail.openBlock exampleBlock).lines
+    = [[], ['-', '-', '-'], ['a', ':', ' ', '1'], ['-', '-', '-'], ['#', ' ', 'T'],
+       ['`', '`', '`', '`', 'p', 'y'], ['`', '`', '`', 's', 'c', 'r', 'u', 't'], ['$', ' ', 'n', 'o'], ['`', '`', '`'],
+       ['`', '`', '`', '`'], ['P'],
+       ['`', '`', '`', 's', 'c', 'r', 'u', 't', ' ', '{', 'a', '}'], ['#', ' ', 'c'], ['$', ' ', 'x'], ['>', ' ', 'y'],
+       ['o'], ['[', '7', ']'], ['>', ' ', 'z']] := by rfl
+
+/-- … and its result: the test of the unterminated block, `$` on line 14, with the title -/
+example : parseLines envAll (render exampleHead ++ (Tail.openBlock exampleBlock).lines)
+    = .ok { docConfigs := [['a', ':', ' ', '1']], tests :=
+        [{ title := ['T', '\n', 'P'], command := [['x'], ['y']], exitCode := some 7,
+           expectations := [['o'], ['>', ' ', 'z']], lineNumber := 14, config := some (some ['a']) }] } := by rfl
+
+example : expectedTests envAll exampleHead 0 none []
+      ++ tailTests (.openBlock exampleBlock) (render exampleHead).length (titleAfter envAll exampleHead none []).1
+    = [{ title := ['T', '\n', 'P'], command := [['x'], ['y']], exitCode := some 7,
+         expectations := [['o'], ['>', ' ', 'z']], lineNumber := 14, config := some (some ['a']) }] := by rfl
+
+/-- the other tails: non-vacuity of `Tail.WF` … -/
+example : (Tail.openFront [['a', ':', ' ', '1']]).WF envAll (csAfterAll false [.prose []]) :=
+  ⟨rfl, by decide, rfl⟩
+example : (Tail.openForeign exampleForeign).WF envAll (csAfterAll false exampleHead) :=
+  ⟨rfl, rfl, by decide, by decide⟩
+example : (Tail.openNoCommand exampleNoCommand).WF envAll (csAfterAll false exampleHead) :=
+  ⟨rfl, rfl, trivial, by decide, by decide⟩
+
+/-- … and one evaluated document per kind.  Unterminated front-matter behind a blank line: -/
+example : parseLines envAll [[], ['-', '-', '-'], ['a', ':', ' ', '1']]
+    = .ok { docConfigs := [['a', ':', ' ', '1']], tests := [] } := by rfl
+
+/-- … the same lines once content has started are prose: no document configuration -/
+example : parseLines envAll [['P'], ['-', '-', '-'], ['a', ':', ' ', '1']]
+    = .ok { docConfigs := [], tests := [] } := by rfl
+
+/-- unterminated foreign block: its `$` line is no test -/
+example : parseLines envAll [['#', ' ', 'T'], ['`', '`', '`', 'p', 'y'], ['$', ' ', 'n', 'o']]
+    = .ok { docConfigs := [], tests := [] } := by rfl
+
+/-- … but an unterminated bare fence is an error like a closed one (excluded by `OpenForeignWF`) -/
+example : parseLines envAll [['#', ' ', 'T'], ['`', '`', '`'], ['$', ' ', 'n', 'o']]
+    = .error (.missingLanguage 1) := by rfl
+
+/-- unterminated scrut block without a command -/
+example : parseLines envAll [['#', ' ', 'T'], ['`', '`', '`', 's', 'c', 'r', 'u', 't'], ['#', ' ', 'c']]
+    = .ok { docConfigs := [], tests := [] } := by rfl
+
+/-- unterminated scrut block with a command: everything to the end of the document is its body -/
+example : parseLines envAll
+      [['#', ' ', 'T'], ['`', '`', '`', 's', 'c', 'r', 'u', 't'], ['#', ' ', 'c'], ['$', ' ', 'x'], ['o'], ['[', '7', ']']]
+    = .ok { docConfigs := [], tests :=
+        [{ title := ['T'], command := [['x']], exitCode := some 7, expectations := [['o']],
+           lineNumber := 4, config := some none }] } := by rfl
 
 /-- a normal document: title, comment, command, expectation, exit code, 1-based line of the `$` -/
 theorem C06_example_document :
